@@ -383,11 +383,11 @@ def solve_affine_equations_for(unknowns, equations):
         for lhs_factor, coeffs in [(1, coeff_coll(lhs)), (-1, coeff_coll(rhs))]:
             for key, coeff in coeffs.items():
                 if key in unknowns_set:
-                    mat[i_eqn, unknown_idx_lut[key]] = lhs_factor*coeff
+                    mat[i_eqn, unknown_idx_lut[key]] += lhs_factor*coeff
                 elif key in parameters:
-                    rhs_mat[i_eqn, parameter_idx_lut[key]] = -lhs_factor*coeff
+                    rhs_mat[i_eqn, parameter_idx_lut[key]] += -lhs_factor*coeff
                 elif key == 1:
-                    rhs_mat[i_eqn, -1] = -lhs_factor*coeff
+                    rhs_mat[i_eqn, -1] += -lhs_factor*coeff
                 else:
                     raise ValueError(f"key '{key}' not understood")
 
